@@ -558,7 +558,7 @@ class ContentSecurityPolicySourceHost(ParsableBase, Serializable):
         parser.parse_string_until_separator_or_end('value', ' ')
 
         source = cls(**parser)
-        if source.value.host == '':
+        if isinstance(source.value, urllib3.util.url.Url) and source.value.host == '':
             # 'http://:' has an empty host-part, which is not a host-source; its composition would read differently
             raise InvalidValue(parser['value'], cls, 'value')
 
